@@ -17,6 +17,7 @@ class Guard(object):
         self.reject_targets = reject_targets
         self.pass_targets = pass_targets
         self.span = span
+        self.cond_ty = None                 # type of the switch operand (bool, an integer type, ...)
 
     @property
     def line(self):
@@ -144,8 +145,11 @@ class Ctx(object):
             good = [(v, tgt) for v, tgt in edges if not (out.get(tgt) and out[tgt] <= rej) and out.get(tgt)]
             if bad and good:
                 cond = self.eng.operand(body, i, TERM_IDX, t['discr'])
-                res.append(Guard(body, i, cond, [v for v, _ in bad], [v for v, _ in good], [x for _, x in bad], [x for _, x in good], t['span'],
-                                 self.discr_type(body, t['discr'])))
+                g = Guard(body, i, cond, [v for v, _ in bad], [v for v, _ in good], [x for _, x in bad], [x for _, x in good], t['span'],
+                          self.discr_type(body, t['discr']))
+                d = t['discr']
+                g.cond_ty = body.local_ty(d['place']['l']) if d['k'] in ('copy', 'move') and not d['place']['p'] else None
+                res.append(g)
         self._guards[key] = res
         return res
 
